@@ -118,7 +118,7 @@ Section SU.
       + split.
         * intros Hlt. destruct Hd as (k & j & Hk & Hlk); [lia|]. exists k, j. split; [congruence|].
           rewrite map_app. apply lk_app_l. exact Hlk.
-        * intros Hge. rewrite Hold. apply Hn. lia.
+        * intros Hge. rewrite <- Hold. apply Hn. lia.
   Qed.
 
   (* ---- a nested union: its alternatives one after the other ---- *)
@@ -140,7 +140,7 @@ Section SU.
       exists []. rewrite app_nil_r. auto.
     - cbn [su_inner] in H. rewrite place_false in H. cbn [bind] in H.
       apply bind_ok in H. destruct H as (s' & Hs' & H).
-      inversion Htl as [|? ? Hty Htys]; subst.
+      pose proof (Forall_inv Htl) as Hty. pose proof (Forall_inv_tail Htl) as Htys.
       destruct Hinv as (Hs & Htlc & Hrows).
       assert (Hinv' : InvG (done_in itags i (zlen (ipre ++ [y]))) (contents ++ [y]) s').
       { split; [|split].
@@ -161,18 +161,18 @@ Section SU.
               rewrite lk_snoc, Z.add_0_r.
               destruct (Hval _ _ _ Hr) as (it' & ii' & Hit' & Hii' & Hlk).
               assert (it' = it) by congruence. assert (ii' = ii) by congruence. subst it' ii'.
-              unfold lk in Hlk. assert (Hgy : get (map vals (ipre ++ y :: ys)) it = Ok (vals y)).
+              unfold lk in Hlk. rewrite Hics in Hlk. assert (Hgy : get (map vals (ipre ++ y :: ys)) it = Ok (vals y)).
               { rewrite map_app. cbn [map]. replace it with (0 + zlen (map vals ipre)) by (rewrite zlen_map; lia).
                 apply get_app_r; [lia|]. reflexivity. }
               rewrite Hgy in Hlk. exact Hlk.
             * subst new. split.
               -- intros Hdone. destruct Hd as (k & j & Hk & Hlk); [lia|]. exists k, j. split; [congruence|].
                  rewrite map_app. apply lk_app_l. exact Hlk.
-              -- intros Hnd. rewrite Hnew. apply Hn. lia.
+              -- intros Hnd. rewrite Hnew, <- Hold. apply Hn. lia.
           + subst new. split.
             * intros Hdone. destruct Hd as (k & j & Hk & Hlk); [lia|]. exists k, j. split; [congruence|].
               rewrite map_app. apply lk_app_l. exact Hlk.
-            * intros Hnd. rewrite Hnew. apply Hn. lia. }
+            * intros Hnd. rewrite Hnew, <- Hold. apply Hn. lia. }
       specialize (IH (ipre ++ [y]) (contents ++ [y]) s' r).
       rewrite zlen_app in IH. change (zlen [y]) with 1 in IH. rewrite <- app_assoc in IH. cbn [app] in IH.
       destruct (IH Hics Htys) as (Hfin & added & Hadd & Hadded).
@@ -181,3 +181,224 @@ Section SU.
       split; [exact Hfin|]. exists (y :: ys). rewrite Hadd, Hadded, <- app_assoc. auto.
   Qed.
 End SU.
+
+(* the alternatives after flattening one level *)
+Definition flat1 (x : content) : list content :=
+  match body x with Union _ _ _ ics => ics | _ => [x] end.
+Definition flat_alts (cs : list content) : list content := concat (map flat1 cs).
+
+Lemma InvG_ext tags index vs (d d' : Z -> Z -> bool) contents s :
+  (forall p t ix v, row tags index vs p t ix v -> d t ix = d' t ix) ->
+  InvG tags index vs d contents s -> InvG tags index vs d' contents s.
+Proof.
+  intros He (Hs & Htl & Hrows). split; [exact Hs|split; [exact Htl|]].
+  intros p t ix v Hr. rewrite <- (He _ _ _ _ Hr). apply Hrows. exact Hr.
+Qed.
+
+Lemma valid_union_nostr x w t i cs : valid_b x = true -> body x = Union w t i cs ->
+  is_strk (fst (params x)) = false /\ Forall (fun y => unionlike y = false) cs.
+Proof.
+  unfold valid_b. intros Hv Hb.
+  assert (H : forall p, validb p (Union w t i cs) = true -> paramcheck p (Union w t i cs) = true /\ existsb unionlike cs = false).
+  { intros p Hp. cbn [validb] in Hp. repeat (apply andb_true_iff in Hp; destruct Hp as [Hp ?]).
+    split; [assumption|]. apply negb_true_iff. assumption. }
+  assert (HE : forall l, existsb unionlike l = false -> Forall (fun y => unionlike y = false) l).
+  { induction l; cbn; intros He; constructor; apply orb_false_iff in He; tauto. }
+  destruct x; cbn [body] in Hb; try discriminate.
+  - inversion Hb; subst. destruct (H _ Hv) as [_ He]. split; [reflexivity|apply HE; exact He].
+  - subst x. cbn [validb] in Hv. destruct (H _ Hv) as [Hp He]. split; [|apply HE; exact He].
+    cbn [params fst]. destruct arr as [[]|]; try reflexivity; cbn in Hp; discriminate.
+Qed.
+Lemma valid_plain_not_unionlike x : valid_b x = true -> (forall w t i cs, body x <> Union w t i cs) -> unionlike x = false.
+Proof.
+  unfold valid_b, unionlike. intros Hv Hb. destruct x; try reflexivity.
+  - exfalso. eapply Hb. reflexivity.
+  - cbn [validb] in Hv. cbn [strip]. destruct x; try reflexivity; try discriminate.
+    exfalso. eapply Hb. reflexivity.
+Qed.
+
+Lemma su_loop_plain mb tags index i x xs contents s :
+  (forall w t ix cs, body x <> Union w t ix cs) ->
+  su_loop false mb tags index i (x :: xs) contents s
+  = su_loop false mb tags index (i + 1) xs (contents ++ [x]) (simp_one s tags index (zlen contents) i 0).
+Proof.
+  intros Hb. cbn [su_loop]. destruct (body x); try reflexivity. exfalso. eapply Hb. reflexivity.
+Qed.
+Lemma su_loop_union mb tags index i x xs contents s w itags iindex ics :
+  body x = Union w itags iindex ics ->
+  su_loop false mb tags index i (x :: xs) contents s
+  = (do r <- su_inner false mb tags index itags iindex i 0 ics contents s;
+     su_loop false mb tags index (i + 1) xs (fst r) (snd r)).
+Proof. intros Hb. cbn [su_loop]. rewrite Hb. reflexivity. Qed.
+
+Section Outer.
+  Variables (tags index : list Z) (vs : list value) (cs0 : list content) (mb : bool).
+  Hypothesis Hlen_ix : zlen tags <= zlen index.
+  Hypothesis Hlen_vs : zlen vs = zlen tags.
+  Hypothesis Horig : forall p t ix v, row tags index vs p t ix v -> lk (map vals cs0) t ix = Ok v.
+  Hypothesis Htl0 : Forall tl_ok cs0.
+  Hypothesis Hval0 : Forall (fun x => valid_b x = true) cs0.
+
+  Lemma outer_steps : forall l pre contents s r,
+    cs0 = pre ++ l ->
+    InvG tags index vs (fun t _ => t <? zlen pre) contents s ->
+    su_loop false mb tags index (zlen pre) l contents s = Ok r ->
+    InvG tags index vs (fun t _ => t <? zlen cs0) (fst r) (snd r) /\ fst r = contents ++ flat_alts l.
+  Proof.
+    induction l as [|x xs IH]; intros pre contents s r Hcs Hinv H.
+    - cbn in H. inversion H; subst r. cbn [fst snd]. rewrite app_nil_r in Hcs. subst pre.
+      split; [exact Hinv|]. unfold flat_alts. cbn. now rewrite app_nil_r.
+    - assert (Hx : get cs0 (zlen pre) = Ok x).
+      { rewrite Hcs. replace (zlen pre) with (0 + zlen pre) by lia. apply get_app_r; [lia|reflexivity]. }
+      assert (Htx : tl_ok x) by (eapply Forall_forall in Htl0; [exact Htl0|]; rewrite Hcs; apply in_or_app; right; left; reflexivity).
+      assert (Hvx : valid_b x = true) by (eapply Forall_forall in Hval0; [exact Hval0|]; rewrite Hcs; apply in_or_app; right; left; reflexivity).
+      assert (Hcs' : cs0 = (pre ++ [x]) ++ xs) by (rewrite <- app_assoc; exact Hcs).
+      destruct (body x) as [| | | | | | | | | |w' itags iindex ics| |] eqn:Eb;
+        try (rewrite su_loop_plain in H by (rewrite Eb; discriminate);
+             pose proof (step_plain tags index vs Hlen_ix cs0 (zlen pre) x contents s Horig Hx Htx Hinv) as Hstep;
+             pose proof (IH (pre ++ [x]) (contents ++ [x]) (simp_one s tags index (zlen contents) (zlen pre) 0) r Hcs') as IH';
+             rewrite zlen_app in IH'; change (zlen [x]) with 1 in IH';
+             destruct (IH' Hstep H) as [Hfin Hcont];
+             split; [exact Hfin|];
+             rewrite Hcont, <- app_assoc; unfold flat_alts; cbn [map concat]; unfold flat1 at 2; rewrite Eb; reflexivity).
+      rewrite (su_loop_union _ _ _ _ _ _ _ _ _ _ _ _ Eb) in H.
+      (* a nested union *)
+      apply bind_ok in H. destruct H as (r1 & Hr1 & H).
+      destruct (valid_union_nostr _ _ _ _ _ Hvx Eb) as [Hns _].
+      pose proof (tl_ok_vals _ Htx) as Hvx'. rewrite (to_list_nostr _ Hns), Eb in Hvx'.
+      destruct (union_rows _ _ _ _ _ Hvx') as (Htli & Hli & Hlv & Hrowsi).
+      assert (Hval : forall p ix v, row tags index vs p (zlen pre) ix v ->
+                exists it ii, get itags ix = Ok it /\ get iindex ix = Ok ii /\ lk (map vals ics) it ii = Ok v).
+      { intros p ix v Hr. specialize (Horig _ _ _ _ Hr). unfold lk in Horig.
+        rewrite (get_map vals _ _ _ Hx) in Horig. cbn [bind] in Horig.
+        pose proof (get_lt _ _ _ Horig) as Hrange.
+        destruct (get_in_range itags ix) as [it Hit]; [lia|].
+        destruct (get_in_range iindex ix) as [ii Hii]; [lia|].
+        destruct (Hrowsi _ _ _ Hit Hii) as (v' & Hv' & Hlk). exists it, ii. repeat split; auto. congruence. }
+      assert (Hinv0 : InvG tags index vs (done_in itags (zlen pre) (zlen (@nil content))) contents s).
+      { eapply InvG_ext; [|exact Hinv]. intros p t ix v Hr. unfold done_in. change (zlen (@nil content)) with 0. cbn beta.
+        destruct (t =? zlen pre) eqn:E; [|rewrite andb_false_l, orb_false_r; reflexivity].
+        assert (t = zlen pre) by lia. subst t. destruct (Hval _ _ _ Hr) as (it & ii & Hit & _ & Hlk).
+        unfold itag_of. rewrite Hit. unfold lk in Hlk. apply bind_ok in Hlk. destruct Hlk as (l0 & Hl0 & _).
+        apply get_lt in Hl0. lia. }
+      destruct (inner_steps tags index vs Hlen_ix mb itags iindex ics (zlen pre) Hval ics [] contents s r1 eq_refl Htli Hinv0 Hr1)
+        as (Hinv1 & added & Hadd & Hadded).
+      assert (Hinv2 : InvG tags index vs (fun t _ => t <? zlen pre + 1) (fst r1) (snd r1)).
+      { eapply InvG_ext; [|exact Hinv1]. intros p t ix v Hr. unfold done_in. cbn beta.
+        destruct (t =? zlen pre) eqn:E; [|rewrite andb_false_l, orb_false_r; lia].
+        assert (t = zlen pre) by lia. subst t. destruct (Hval _ _ _ Hr) as (it & ii & Hit & _ & Hlk).
+        unfold itag_of. rewrite Hit. unfold lk in Hlk. apply bind_ok in Hlk. destruct Hlk as (l0 & Hl0 & _).
+        apply get_lt in Hl0. rewrite zlen_map in Hl0. lia. }
+      pose proof (IH (pre ++ [x]) (fst r1) (snd r1) r Hcs') as IH'. rewrite zlen_app in IH'. change (zlen [x]) with 1 in IH'.
+      destruct (IH' Hinv2 H) as [Hfin Hcont]. split; [exact Hfin|].
+      rewrite Hcont, Hadd, Hadded, <- app_assoc. unfold flat_alts. cbn [map concat]. unfold flat1 at 2. rewrite Eb. reflexivity.
+  Qed.
+End Outer.
+
+Lemma zip_fst_snd {A B} (l : list (A * B)) : zip (map fst l) (map snd l) = l.
+Proof. induction l as [|[a b] l IH]; cbn; [reflexivity|]. now rewrite IH. Qed.
+
+Lemma flat_alts_not_unionlike cs0 :
+  Forall (fun x => valid_b x = true) cs0 -> Forall (fun y => unionlike y = false) (flat_alts cs0).
+Proof.
+  induction 1 as [|x xs Hx _ IH]; unfold flat_alts; cbn; [constructor|]. apply Forall_app. split; [|exact IH].
+  unfold flat1. destruct (body x) eqn:Eb;
+    try (constructor; [apply valid_plain_not_unionlike; [exact Hx|intros; congruence]|constructor]).
+  destruct (valid_union_nostr _ _ _ _ _ Hx Eb) as [_ H]. exact H.
+Qed.
+
+(* (d) for unions: merge = False (no alternative is merged), any nesting of valid unions, >= 2 alternatives
+   after flattening (with a single one the C++ carries that alternative; not covered) *)
+Theorem simplify_union_value_pf : forall mb c w tags index cs0 vs c',
+  body c = Union w tags index cs0 -> is_strk (fst (params c)) = false ->
+  Forall (fun x => valid_b x = true) cs0 -> (2 <= length (flat_alts cs0))%nat ->
+  to_list c = Ok vs -> simplify_union false mb c = Ok c' ->
+  to_list c' = Ok vs /\
+  exists t' i', body c' = Union I64 t' i' (flat_alts cs0) /\ Forall (fun y => unionlike y = false) (flat_alts cs0).
+Proof.
+  intros mb c w tags index cs0 vs c' Hb Hns Hval Hn Ht Hs.
+  rewrite (to_list_nostr _ Hns), Hb in Ht.
+  destruct (union_rows _ _ _ _ _ Ht) as (Htl0 & Hli & Hlv & Hrows).
+  assert (Horig : forall p t ix v, row tags index vs p t ix v -> lk (map vals cs0) t ix = Ok v).
+  { intros p t ix v (Hpt & Hpi & Hpv). destruct (Hrows _ _ _ Hpt Hpi) as (v' & Hv' & Hlk). congruence. }
+  unfold simplify_union in Hs. rewrite Hb in Hs.
+  destruct (zlen index <? zlen tags) eqn:E; [lia|].
+  apply bind_ok in Hs. destruct Hs as ([cs s] & Hloop & Hs).
+  assert (Hinv0 : InvG tags index vs (fun t _ => t <? zlen (@nil content)) [] (map (fun _ => None) tags)).
+  { split; [apply zlen_map|split; [constructor|]]. intros p t ix v Hr. change (zlen (@nil content)) with 0.
+    pose proof (Horig _ _ _ _ Hr) as Hlk0. unfold lk in Hlk0. apply bind_ok in Hlk0. destruct Hlk0 as (l0 & Hl0 & _).
+    apply get_lt in Hl0. destruct Hr as (Hpt & _ & _).
+    split; [intros; lia|]. intros _.
+    apply (get_map (fun _ : Z => @None (Z * Z))) in Hpt. exact Hpt. }
+  destruct (outer_steps tags index vs cs0 mb Hli Horig Htl0 Hval cs0 [] [] _ _ eq_refl Hinv0 Hloop) as [Hfin Hcont].
+  cbn [fst snd app] in Hfin, Hcont. subst cs.
+  destruct (127 <? zlen (flat_alts cs0)) eqn:E127; [discriminate|].
+  apply bind_ok in Hs. destruct Hs as (ti & Hti & Hs).
+  destruct (flat_alts cs0) as [|a1 [|a2 rest]] eqn:Efl; [cbn in Hn; lia|cbn in Hn; lia|].
+  rewrite <- Efl in *. inversion Hs; subst c'. clear Hs.
+  destruct Hfin as (Hsl & Htlc & Hfin).
+  split.
+  - rewrite to_list_mkpar by exact Hns. cbn [to_list]. rewrite all_fix_to_list.
+    assert (HM : mapM to_list (flat_alts cs0) = Ok (map vals (flat_alts cs0))).
+    { clear -Htlc. induction Htlc as [|x xs Hx _ IH]; cbn; [reflexivity|]. rewrite (tl_ok_vals _ Hx), IH. reflexivity. }
+    rewrite HM. cbn [bind]. rewrite !zlen_map. replace (zlen ti <? zlen ti) with false by lia.
+    rewrite zip_fst_snd.
+    pose proof (mapM_zlen _ _ _ Hti) as Hlti.
+    apply mapM_pointwise; [lia|].
+    intros p [k j] Hp.
+    destruct (get_mapM_inv _ _ _ _ _ Hti Hp) as (o & Ho & Hunw).
+    destruct o as [kj|]; [|discriminate]. inversion Hunw; subst kj.
+    pose proof (get_lt _ _ _ Hp) as Hrange.
+    destruct (get_in_range tags p) as [t Hpt]; [lia|].
+    destruct (get_in_range index p) as [ix Hpi]; [lia|].
+    destruct (get_in_range vs p) as [v Hpv]; [lia|].
+    assert (Hr : row tags index vs p t ix v) by (repeat split; assumption).
+    exists v. split; [exact Hpv|].
+    destruct (Hfin _ _ _ _ Hr) as [Hd _].
+    pose proof (Horig _ _ _ _ Hr) as Hlk0. unfold lk in Hlk0. apply bind_ok in Hlk0. destruct Hlk0 as (l0 & Hl0 & _).
+    apply get_lt in Hl0. rewrite zlen_map in Hl0.
+    destruct Hd as (k' & j' & Hk' & Hlk'); [lia|].
+    assert (Some (k, j) = Some (k', j')) by congruence. inversion H; subst. exact Hlk'.
+  - exists (map fst ti), (map snd ti). split.
+    + destruct (params c) as [[a|] [rn|]]; reflexivity.
+    + apply flat_alts_not_unionlike. exact Hval.
+Qed.
+
+Example simplify_union_example :
+  let inner := Union I32 [1; 0] [0; 0] [Numpy DInt64 [1] [DZ 7]; Numpy DBool [1] [DZ 1]] in
+  let c := Union I64 [0; 1; 0] [1; 0; 0] [inner; ListOffset I64 [0; 1] (Numpy DInt64 [1] [DZ 3])] in
+  to_list c = Ok [VNum (DZ 7); VList [VNum (DZ 3)]; VBool true] /\
+  rmap to_list (simplify_union false true c) = Ok (Ok [VNum (DZ 7); VList [VNum (DZ 3)]; VBool true]) /\
+  Nat.le 2 (length (flat_alts [inner; ListOffset I64 [0; 1] (Numpy DInt64 [1] [DZ 3])])).
+Proof. vm_compute. repeat split. lia. Qed.
+
+(* ---------------------------------------------------------------- numbers_to_type on a 1-d NumpyArray *)
+Lemma astype_leaf dt dst d :
+  rmap (leaf dst) (cast_datum dt dst d) = astype_v dst (TNum dt) (leaf dt d).
+Proof.
+  destruct dt; try reflexivity.
+  (* bool: the value-level view of the stored byte *)
+  cbn [leaf astype_v]. unfold cast_datum. cbn [fill_datum].
+  destruct d as [z| |neg]; cbn [bool_datum]; try reflexivity.
+  destruct (z =? 0); reflexivity.
+Qed.
+
+Theorem astype_numpy_pf dt dst n data vs c' :
+  to_list (Numpy dt [n] data) = Ok vs -> astype_model dst (Numpy dt [n] data) = Ok c' ->
+  exists vs', to_list c' = Ok vs' /\ astype_spec dst (type_of (Numpy dt [n] data)) vs = Ok vs' /\
+              type_of c' = astype_ty dst (type_of (Numpy dt [n] data)).
+Proof.
+  intros Ht Ha. destruct (to_list_np1 _ _ _ _ Ht) as [Hn ->].
+  unfold astype_model in Ha. cbn [astype_p] in Ha. rewrite prodZ_one in Ha.
+  apply bind_ok in Ha. destruct Ha as (dd & Hdd & Ha). apply bind_ok in Ha. destruct Ha as (r & Hr & Ha).
+  inversion Ha; subst c'. clear Ha.
+  apply slice_ok in Hdd. destruct Hdd as (_ & _ & ->). rewrite Z.sub_0_r in Hr. unfold drop in Hr. cbn [Z.to_nat skipn] in Hr.
+  pose proof (mapM_zlen _ _ _ Hr) as Hl. rewrite zlen_take in Hl by lia.
+  exists (map (leaf dst) r). split; [|split].
+  - rewrite to_list_np1_ok by lia. rewrite take_all by lia. reflexivity.
+  - unfold astype_spec. cbn [type_of type_of_p numpy_ty tl]. rewrite mapM_map.
+    apply mapM_ok_Forall2 in Hr. apply Forall2_mapM.
+    clear Hl Ht. induction Hr as [|d y ds ys Hdy _ IH]; cbn [map]; [constructor|]. constructor; [|exact IH].
+    cbn beta. rewrite <- astype_leaf, Hdy. reflexivity.
+  - reflexivity.
+Qed.
